@@ -2,7 +2,9 @@
    (executioner.py cmd_epr, send_epr_half), as repaired by fixes/D16ii-epr-temporaries.diff: when anything fails before the
    hand-over is complete, the temporary qubits that exist are removed again (_clear_phys_qubit_in_memory), the physical id is
    released and the error is re-raised.  The decision function may_create / is_adjacent itself is modelled and translated in
-   Qasm/Topo.v (other builder); here `adj` is its result. *)
+   Qasm/Topo.v (other builder); here `adj` is its result.
+   Second half of the file: the same for ONE pair of a MEASURE-DIRECTLY request (cmd_epr_measure: both temporaries rotated into
+   their sampled bases, measured destructively, removed; md_records: the two entanglement-information records). *)
 From Coq Require Import List Bool Arith Lia.
 From SQ Require Import Base.ListUtil Stab.Tableau Net.Model Net.Refusal Net.Population Qasm.Exec Qasm.Epr.
 Import ListNotations.
@@ -290,3 +292,22 @@ Qed.
 Theorem refused_measure_creates_nothing i s known r adj qid bl br c1 c2 coins :
   epr_gate known i r adj = false -> cmd_epr_measure i s known r adj qid bl br c1 c2 coins = (s, RErr, [], None).
 Proof. intro H. unfold cmd_epr_measure. rewrite H. reflexivity. Qed.
+
+(* non-vacuity: a successful measure-directly pair (sampled bases X, Y; coins 1, 0) -- the complete native trace, the outcomes,
+   host and node exactly as before; and one refused at the second cmd_new (room for one more qubit only): the first temporary
+   is removed again, as for create-and-keep *)
+Example ex_measure_ok :
+  let c := cmd_epr_measure 0 ok_start [0; 1] 1 true 0 BX BY true false [] in
+  snd (fst (fst c)) = RDone None /\
+  snd (fst c) = [(ONew 0, Ok 0); (ONew 0, Ok 1); (OGate1 0 NH, OkNone); (OGate2 0 1 NCnot, OkNone); (OGate1 0 NH, OkNone);
+                 (OMeas 0 false true, Ok 1); (OGate1 1 NK, OkNone); (OMeas 1 false false, Ok 0)] /\
+  snd c = Some (1, 0) /\ md_outcomes BX BY true false = (true, false) /\
+  q_host (fst (fst (fst c))) = q_host ok_start /\ node_counts (fst (fst (fst c))) 0 = (0, 0, 0, 0) /\
+  md_records 0 1 2 3 7 BX BY (1, 0) = (mkMrec 1 BX 7 0 1 2, mkMrec 0 BY 7 1 0 3).
+Proof. vm_compute. repeat split; reflexivity. Qed.
+Example ex_measure_refused_second_new :
+  let c := cmd_epr_measure 0 tight_start [0; 1] 1 true 1 BX BY true false [false] in
+  snd (fst (fst c)) = RErr /\ snd c = None /\
+  snd (fst c) = [(ONew 0, Ok 1); (ONew 0, Err KNoQubit); (OMeas 1 false false, Ok 0)] /\
+  q_host (fst (fst (fst c))) = q_host tight_start /\ node_counts (fst (fst (fst c))) 0 = node_counts tight_start 0.
+Proof. vm_compute. repeat split; reflexivity. Qed.
